@@ -168,6 +168,53 @@ Theorem vm_PCall_ok_depth : forall ml nargs nret h s s',
 Proof. exact PCallFacts.PCall_ok_depth. Qed.
 Print Assumptions vm_PCall_ok_depth.
 
+(* ---- wave 5: the C-call depth (LState.nccalls, bounded by maxCCalls) across a failed protected call ---- *)
+From GL Require VMX.PCallDepthFacts.
+
+(* no handler: the C-call depth after a failed protected call is the depth at the call, whatever
+   the callee did to it before failing (callR's own increment is never taken back by an error) *)
+Theorem vm_PCall_nohandler_restores_ccalls : forall ml nargs nret s e sf,
+  Step.Call ml nargs nret s = Machine.VErr e sf -> PCallDepthFacts.cur_ok sf ->
+  exists s', Step.PCall ml nargs nret None s = Machine.VRet (Some e) s' /\
+             Step.cur_nccalls s' = Step.cur_nccalls s /\ Machine.vcur s' = Machine.vcur sf.
+Proof. exact PCallDepthFacts.PCall_nohandler_ccalls. Qed.
+Print Assumptions vm_PCall_nohandler_restores_ccalls.
+
+(* with a handler: the handler is called exactly once, in the failing state (same frames, same
+   registers: before unwinding) whose C-call depth has ALREADY been put back to the depth at the
+   PCall -- so it can run also when the error is the overflow of that depth --, and what the caller
+   receives is the handler's result *)
+Theorem vm_PCall_handler_runs_at_entry_depth : forall ml nargs nret hv s e sf,
+  Step.Call ml nargs nret s = Machine.VErr e sf -> PCallDepthFacts.cur_ok sf ->
+  let sh := Step.set_nccalls (Step.cur_nccalls s) sf in
+  Step.cur_nccalls sh = Step.cur_nccalls s /\ Machine.vstack sh = Machine.vstack sf /\ Machine.vreg sh = Machine.vreg sf /\
+  Step.PCall ml nargs nret (Some hv) s =
+    match PCallDepthFacts.handler_run ml hv e sh with
+    | Machine.VRet v s1 => Machine.VRet (Some v) (Step.unwind (length (Machine.vstack s)) (Machine.rtop (Machine.vreg s) - nargs - 1) s1)
+    | Machine.VErr e2 s1 => Machine.VRet (Some e2) (Step.unwind (length (Machine.vstack s)) (Machine.rtop (Machine.vreg s) - nargs - 1) s1)
+    | Machine.VFuel => Machine.VFuel
+    | Machine.VUnsup c => Machine.VUnsup c
+    end.
+Proof. exact PCallDepthFacts.PCall_handler_entry. Qed.
+Print Assumptions vm_PCall_handler_runs_at_entry_depth.
+
+(* the handler returned: the depth after the protected call is the depth the handler's call left *)
+Theorem vm_PCall_handler_returns_ccalls : forall ml nargs nret hv s e sf v s1,
+  Step.Call ml nargs nret s = Machine.VErr e sf ->
+  PCallDepthFacts.handler_run ml hv e (Step.set_nccalls (Step.cur_nccalls s) sf) = Machine.VRet v s1 ->
+  exists s', Step.PCall ml nargs nret (Some hv) s = Machine.VRet (Some v) s' /\ Step.cur_nccalls s' = Step.cur_nccalls s1.
+Proof. exact PCallDepthFacts.PCall_handler_returns_ccalls. Qed.
+Print Assumptions vm_PCall_handler_returns_ccalls.
+
+(* NOT covered in the VM model: the branch in which the handler itself raises (the Go code restores
+   the depth there too since /repo 8afd4e6; Step.PCall does not follow yet, notes/VMX-todo.md item 4;
+   the behaviour is checked against the real code by the harness: event "xpcall-handler-raises" of
+   bookkeepingAfter and the reference-only corpus) *)
+Definition vm_PCall_handler_raises_restores_ccalls_statement : Prop := forall ml nargs nret hv s e sf e2 s1,
+  Step.Call ml nargs nret s = Machine.VErr e sf -> PCallDepthFacts.cur_ok s1 ->
+  PCallDepthFacts.handler_run ml hv e (Step.set_nccalls (Step.cur_nccalls s) sf) = Machine.VErr e2 s1 ->
+  exists s', Step.PCall ml nargs nret (Some hv) s = Machine.VRet (Some e2) s' /\ Step.cur_nccalls s' = Step.cur_nccalls s.
+
 (* the full "prefix of the fault-free side effects" statement relates two runs (with and without
    the injected fault): stated here as a definition and PROVED below (fault_prefix) by a lock-step
    simulation of the two runs over the whole evaluator and the coroutine driver *)
